@@ -1,6 +1,7 @@
 package props
 
 import (
+	"bytes"
 	"fmt"
 	"reflect"
 	"strings"
@@ -21,11 +22,13 @@ var c05TM map[string]reflect.Type
 var c05NM map[string]string
 
 func init() {
-	all := []interface{}{&zoo.F3{}, &zoo.F4{}, &zoo.F5{}, &zoo.F9{}, &zoo.NonASCII{}, &zoo.CaseTwins{}, &zoo.Empty{}, &zoo.NonASCIIFirst{}, &zoo.Inner{}, []int32{1}, []string{"a"}, zoo.NMap{"k": &zoo.CN1{}}, zoo.PlainMap{"k": 1}}
+	all := []interface{}{&zoo.Embedded{}, &zoo.SkewOld{}, &zoo.F3{}, &zoo.F4{}, &zoo.F5{}, &zoo.F9{}, &zoo.NonASCII{}, &zoo.CaseTwins{}, &zoo.Empty{}, &zoo.NonASCIIFirst{}, &zoo.Inner{}, []int32{1}, []string{"a"}, zoo.NMap{"k": &zoo.CN1{}}, zoo.PlainMap{"k": 1}}
 	for _, kt := range zoo.KTypes {
 		all = append(all, reflect.New(kt).Interface())
 	}
 	c05TM, c05NM = hessian.ExtractTypeNameMap(all)
+	c05TM["Wide150"] = c05Wide
+	c05TM["skew.T"] = reflect.TypeOf(zoo.SkewOld{})
 }
 
 // a wire rendering of one struct instance: which Go fields are sent, in which
@@ -41,7 +44,59 @@ func (p c05Plan) String() string {
 }
 
 // values an unknown wire field may carry: each decodable on its own with c05TM
+const c05ExtraKinds = 34
+
+// c05AliasKind: the unknown field holds the very object a later known field points to (that field then
+// arrives as a reference into the value that was skipped)
+const c05AliasKind = 33
+
 func c05Extra(kind int) *av.V {
+	switch kind % c05ExtraKinds {
+	case 12:
+		return av.DoubleV(91) // the compact forms of a double: one octet, two, four
+	case 13:
+		return av.DoubleV(-300)
+	case 14:
+		return av.DoubleV(0)
+	case 15:
+		return av.DoubleV(1)
+	case 16:
+		return av.DoubleV(12.25)
+	case 17:
+		return av.StringV("größe 日本 𝔲nknown") // characters of two, three and four octets
+	case 18:
+		return av.StringV(strings.Repeat("é日", 520)) // beyond the short length forms
+	case 19:
+		return av.StringV("")
+	case 20:
+		return av.IntV(5)
+	case 21:
+		return av.IntV(1000)
+	case 22:
+		return av.IntV(100000)
+	case 23:
+		return av.IntV(1 << 30)
+	case 24:
+		return av.LongV(3)
+	case 25:
+		return av.LongV(-1000)
+	case 26:
+		return av.LongV(200000)
+	case 27:
+		return av.LongV(1<<31 - 1)
+	case 28:
+		return av.BoolV(false)
+	case 29:
+		return av.BinaryV(bytes.Repeat([]byte{0xc3, 0x51}, 300))
+	case 30:
+		return av.DateV(1500000060000) // a whole minute: may travel in the compact form
+	case 31:
+		return av.DateV(-1)
+	case 32:
+		return &av.V{K: av.Map, Typed: true, Type: "PlainMap", Elems: []*av.V{av.StringV("k"), av.IntV(5)}}
+	case c05AliasKind:
+		return av.IntV(-77) // (when no later field holds an object)
+	}
 	switch kind % 12 {
 	case 0:
 		return av.IntV(77)
@@ -77,12 +132,35 @@ func c05Render(v reflect.Value, plan c05Plan) (*av.V, interface{}) {
 	obj := &av.V{K: av.Object, Type: full.Type}
 	exp := reflect.New(v.Type())
 	x := 0
+	// names of fields promoted from embedded structs: Java lists the fields of a superclass in the definition of
+	// the subclass, Go keeps them one level down - a wire field of such a name has no counterpart in the struct itself
+	var promoted []string
+	for i := 0; i < v.NumField(); i++ {
+		if sf := v.Type().Field(i); sf.Anonymous && sf.Type.Kind() == reflect.Struct {
+			for j := 0; j < sf.Type.NumField(); j++ {
+				promoted = append(promoted, strings.ToLower(sf.Type.Field(j).Name[:1])+sf.Type.Field(j).Name[1:])
+			}
+		}
+	}
 	addExtras := func(pos int) {
 		if pos < len(plan.extras) {
 			for _, k := range plan.extras[pos] {
 				x++
-				obj.Fields = append(obj.Fields, fmt.Sprintf([]string{"zzUnknown%d", "this$%d", "größe%d", "未知%d", "val$x%d", "𝔲nknown%d"}[(x+k)%6], x))
-				obj.Elems = append(obj.Elems, c05Extra(k))
+				name := fmt.Sprintf([]string{"zzUnknown%d", "this$%d", "größe%d", "未知%d", "val$x%d", "𝔲nknown%d"}[(x+k)%6], x)
+				if x <= len(promoted) {
+					name = promoted[x-1]
+				}
+				val := c05Extra(k)
+				if k%c05ExtraKinds == c05AliasKind {
+					for _, fi := range plan.order[pos:] {
+						if full.Elems[fi].K == av.Object {
+							val = full.Elems[fi]
+							break
+						}
+					}
+				}
+				obj.Fields = append(obj.Fields, name)
+				obj.Elems = append(obj.Elems, val)
 			}
 		}
 	}
@@ -152,6 +230,52 @@ func c05CheckWith(dec *hessian.Decoder, objs []*av.V, exps []interface{}, opt re
 	return b, "", ""
 }
 
+// compactDates takes the compact alternative wherever a date has one.
+type compactDates struct{}
+
+func (compactDates) Choose(n int, what string) int {
+	if what == "date-form" {
+		return 1
+	}
+	return 0
+}
+
+// c05Wide: a class of more fields than any preallocation limit of the decoder (a wide bean).
+var c05Wide = func() reflect.Type {
+	var fs []reflect.StructField
+	for i := 0; i < 150; i++ {
+		t := reflect.TypeOf(int32(0))
+		if i%3 == 1 {
+			t = reflect.TypeOf("")
+		}
+		fs = append(fs, reflect.StructField{Name: fmt.Sprintf("F%03d", i), Type: t})
+	}
+	return reflect.StructOf(fs)
+}()
+
+// c05WideCase renders an instance of the wide class with its first nf fields (in declaration order or reversed)
+// and the value the decoder must produce.
+func c05WideCase(nf int, reversed bool, seed int) (*av.V, interface{}) {
+	obj := &av.V{K: av.Object, Type: "Wide150"}
+	exp := reflect.New(c05Wide)
+	for w := 0; w < nf; w++ {
+		i := w
+		if reversed {
+			i = nf - 1 - w
+		}
+		obj.Fields = append(obj.Fields, fmt.Sprintf("f%03d", i))
+		if i%3 == 1 {
+			sv := fmt.Sprintf("s%d-%d", i, seed)
+			obj.Elems = append(obj.Elems, av.StringV(sv))
+			exp.Elem().Field(i).SetString(sv)
+		} else {
+			obj.Elems = append(obj.Elems, av.IntV(int32(i*7+seed)))
+			exp.Elem().Field(i).SetInt(int64(i*7 + seed))
+		}
+	}
+	return obj, exp.Interface()
+}
+
 func permutations(n int) [][]int {
 	var out [][]int
 	a := make([]int, n)
@@ -180,6 +304,7 @@ func c05Values() []reflect.Value {
 		&zoo.F3{A: 7, B: "bee", C: 2.5},
 		&zoo.F4{A: 1 << 40, B: []int32{1, 2, 3}, C: &zoo.Inner{A: 3, S: "c"}, D: true},
 		&zoo.F5{A: -1, B: "b", C: []string{"x", "", "y"}, D: zoo.Inner{A: 9, S: "d"}, E: []byte{1, 2}},
+		&zoo.Embedded{Inner: zoo.Inner{A: 4, S: "emb"}, X: 5, Y: "why"}, // wire fields named like the promoted ones are unknown
 		&zoo.Empty{}, // no Go field at all: every wire field is one without counterpart
 		&zoo.NonASCIIFirst{Ärger: 3, Étage: "é", Ωmega: []*zoo.Inner{in}, Élan: in, Z: 9},
 		&zoo.CaseTwins{URL: "upper", Url: "lower", HitsID: 7, HitsId: 1 << 40, Ab: true, AB: []int32{1, 2}},
@@ -203,7 +328,16 @@ func TestC05(t *testing.T) {
 	run := func(v reflect.Value, plan c05Plan, k int, long bool, what string) {
 		obj, exp := c05Render(v, plan)
 		opt := refcodec.EncOptions{PadExact: k, ForceLongObject: long, PadSame: padSame}
-		b, failure, harness := c05Check([]*av.V{obj}, []interface{}{exp}, opt, refcodec.Canonical{})
+		var ch refcodec.Choices = refcodec.Canonical{}
+		for _, ex := range plan.extras {
+			for _, kind := range ex {
+				if kind == 30 {
+					// the unknown field holds a whole-minute instant in the compact form
+					opt.CompactDate, ch = true, compactDates{}
+				}
+			}
+		}
+		b, failure, harness := c05Check([]*av.V{obj}, []interface{}{exp}, opt, ch)
 		if harness != "" {
 			harnessBug(t, "C05", "%s (%s %v)", harness, v.Type().Name(), plan)
 		}
@@ -271,7 +405,7 @@ func TestC05(t *testing.T) {
 			full[i] = i
 		}
 		for pos := 0; pos <= nf; pos++ {
-			for kind := 0; kind < 12; kind++ {
+			for kind := 0; kind < c05ExtraKinds; kind++ {
 				ex := make([][]int, nf+1)
 				ex[pos] = []int{kind}
 				if mine() {
@@ -312,6 +446,113 @@ func TestC05(t *testing.T) {
 		}
 	}
 	r.Label("repeated definitions; 511..1500 definitions in a row")
+	// (5) a class of up to 150 fields, its definition at the start or after other classes
+	for _, nf := range []int{1, 63, 64, 65, 66, 100, 127, 128, 129, 150} {
+		for _, reversed := range []bool{false, true} {
+			for _, k := range []int{0, 3} {
+				if !mine() {
+					continue
+				}
+				obj, exp := c05WideCase(nf, reversed, nf+k)
+				obj2, exp2 := c05WideCase(nf, reversed, 1000+nf)
+				b, failure, harness := c05Check([]*av.V{obj, obj2}, []interface{}{exp, exp2}, refcodec.EncOptions{PadExact: k}, refcodec.Canonical{})
+				if harness != "" {
+					harnessBug(t, "C05", "%s (wide class, %d fields)", harness, nf)
+				}
+				r.Eval()
+				r.NonTrivial(av.Hash(fmt.Sprintf("wide/%d/%v/%d", nf, reversed, k)))
+				if failure != "" {
+					directFail(t, "C05", map[string]interface{}{"type": "Wide150", "fields_sent": nf, "reversed": reversed, "class_index": fmt.Sprint(k), "bytes": hexClip(b, 600)},
+						"C05 two instances of a class whose definition lists %d fields (reversed order %v), class index %d: %s\n bytes: %s", nf, reversed, k, failure, hexClip(b, 300))
+				}
+			}
+		}
+	}
+	r.Label("class definitions of 1..150 fields")
+	// ---------------- random: a newer version of a class, sent by the Go encoder itself, read as the older one
+	skewTM := map[string]reflect.Type{"skew.T": reflect.TypeOf(zoo.SkewOld{}), "Inner": reflect.TypeOf(zoo.Inner{})}
+	skewNames := map[string]string{"SkewNew": "skew.T"}
+	for k, v := range c05NM {
+		skewNames[k] = v
+	}
+	for k, v := range c05TM {
+		if _, ok := skewTM[k]; !ok {
+			skewTM[k] = v
+		}
+	}
+	skewCfg := zoo.DefaultCfg()
+	skewCfg.MaxBig, skewCfg.Budget, skewCfg.NoBigStrings = 70, 200, true
+	check(t, "C05", func(rt *rapid.T, c *caseInfo) {
+		g := zoo.NewG(rt, skewCfg)
+		nv := g.Value(reflect.TypeOf(zoo.SkewNew{})).Interface().(zoo.SkewNew)
+		switch rapid.IntRange(0, 3).Draw(rt, "x2") {
+		case 0:
+			nv.X2 = time.Unix(1600000001, 0) // a whole second
+		case 1:
+			nv.X2 = time.Unix(1600000020, 0) // a whole minute
+		}
+		if rapid.Bool().Draw(rt, "x3multi") {
+			nv.X3 = nv.X3 + "é日𝔲" + nv.X3
+		}
+		switch rapid.IntRange(0, 3).Draw(rt, "x1") {
+		case 0:
+			nv.X1 = float64(rapid.IntRange(-130, 130).Draw(rt, "x1small"))
+		case 1:
+			nv.X1 = float64(rapid.IntRange(-33000, 33000).Draw(rt, "x1short"))
+		case 2:
+			nv.X1 = float64(rapid.IntRange(-1000, 1000).Draw(rt, "x1milli")) / 8
+		}
+		alias := rapid.IntRange(0, 2).Draw(rt, "alias")
+		if alias == 1 && nv.X4 != nil {
+			nv.D = nv.X4 // the known field refers into the value of an unknown one
+		}
+		if alias == 2 && len(nv.X11) > 0 {
+			nv.F = nv.X11
+		}
+		if _, perr := zoo.Project(&nv, nil); perr != nil {
+			rt.Skip("unrepresentable")
+		}
+		exp := &zoo.SkewOld{A: nv.A, B: nv.B, C: nv.C, D: nv.D, E: nv.E, F: nv.F, G: nv.G}
+		second := rapid.Bool().Draw(rt, "secondInstance")
+		var msg interface{} = &nv
+		if second {
+			msg = []interface{}{&nv, &zoo.SkewNew{A: 1, X3: "日", B: "b", G: "g", X1: 7, X2: time.Unix(1600000001, 0)}}
+		}
+		desc := zoo.Describe(msg, 300)
+		c.set("value", desc)
+		r.Current("C05 newer version of a class " + desc)
+		var b []byte
+		var err error
+		var out interface{}
+		if pv, st := guard(func() { b, err = hessian.ToBytes(msg, copyNames(skewNames)) }); pv != nil || err != nil {
+			failf(rt, c, "C05 version skew: encoding failed: %v %v [%s]", err, pv, st)
+		}
+		if pv, st := guard(func() { out, err = hessian.ToObject(b, skewTM) }); pv != nil || err != nil {
+			c.set("bytes", hexClip(b, 1000))
+			failf(rt, c, "C05 a message of the newer version of a class (13 more fields, between the known ones) does not decode as the older version: %v %v [%s]\n value %s\n bytes %s", err, pv, st, desc, hexClip(b, 300))
+		}
+		r.Eval()
+		r.NonTrivial(av.Hash(fmt.Sprintf("skew/%x", b)))
+		r.Label(fmt.Sprintf("version-skew:alias=%d", alias))
+		r.Sample(func() interface{} {
+			return map[string]interface{}{"what": "version skew through the Go encoder", "value": desc, "bytes": hexClip(b, 80)}
+		})
+		got := out
+		if second {
+			l, ok := out.([]interface{})
+			if !ok || len(l) != 2 {
+				failf(rt, c, "C05 version skew: two instances came back as %T", out)
+			}
+			got = l[0]
+			if cerr := vcmp.Equal(&zoo.SkewOld{A: 1, B: "b", G: "g"}, l[1], skewNames); cerr != nil {
+				failf(rt, c, "C05 version skew: second instance: %v\n bytes %s", cerr, hexClip(b, 300))
+			}
+		}
+		if cerr := vcmp.Equal(exp, got, skewNames); cerr != nil {
+			c.set("bytes", hexClip(b, 1000))
+			failf(rt, c, "C05 the fields the older version knows are not bound by name when a newer version is sent: %v\n value %s\n bytes %s", cerr, desc, hexClip(b, 300))
+		}
+	})
 	// ---------------- random: several instances of several classes in one stream
 	cfg := zoo.DefaultCfg()
 	cfg.MaxBig, cfg.Budget, cfg.NoBigStrings, cfg.TimeMillis = 10, 80, true, true
@@ -346,7 +587,7 @@ func TestC05(t *testing.T) {
 					plan.extras = make([][]int, keep+1)
 					for e := rapid.IntRange(0, 3).Draw(rt, "nExtras"); e > 0; e-- {
 						pos := rapid.IntRange(0, keep).Draw(rt, "extraPos")
-						plan.extras[pos] = append(plan.extras[pos], rapid.IntRange(0, 11).Draw(rt, "extraKind"))
+						plan.extras[pos] = append(plan.extras[pos], rapid.IntRange(0, c05ExtraKinds-1).Draw(rt, "extraKind"))
 					}
 					plan.upper = make([]bool, keep)
 					for j := range plan.upper {
